@@ -20,12 +20,8 @@ def base_programs(thorough, seed):
     progs += ops if thorough else ops[seed % 7::7]
     progs += Fam.nestings(1)[::(1 if thorough else 5)]
     progs += Fam.random_programs(120 if thorough else 25, seed + 3)
-    out = []
-    for p in progs:
-        if any(f.get("sps") for f in p["fns"].values()) or any("decl" in g for g in p["globals"]):
-            continue
-        out.append(p)
-    return out
+    progs += Fam.singleton_programs()
+    return progs
 
 
 def run_spec(programs, rep, timeout=3000):
